@@ -194,10 +194,12 @@ enum PolicyStateKind<C> {
     },
     // mpc computation is executing in a separate tokio task
     Executing {
-        // use Notify because we notify in both directions, first from the `cancel` method
-        // to the tokio task to signal cancellation, and then the other direction if the
-        // cancel error has been sent to the output URL
+        // signalled by the `cancel` method to ask the tokio task to stop
         cancel: Arc<Notify>,
+        // signalled by the tokio task when it is done: either the cancel error has been sent
+        // to the output URL or the computation had already finished. A separate Notify is
+        // needed, with a single one the permit stored by `cancel` could satisfy its own wait.
+        done: Arc<Notify>,
     },
 }
 
@@ -793,8 +795,10 @@ where
                 let tmp_dir = self.tmp_dir_path.clone();
                 let cmd_tx = self.cmd_tx.clone();
                 let cancel = Arc::new(Notify::new());
+                let done = Arc::new(Notify::new());
                 self.state_kind = PolicyStateKind::Executing {
                     cancel: Arc::clone(&cancel),
+                    done: Arc::clone(&done),
                 };
                 let fut = async move {
                     let mpc_fut = async {
@@ -847,9 +851,9 @@ where
                             if let Err(err) = send_cancel(channel.client, policy).await {
                                 error!(%err, "unable to send cancelled error to output destination")
                             }
-                            cancel.notify_one();
                         }
-                    )
+                    );
+                    done.notify_one();
                 };
 
                 tokio::spawn(fut.instrument(span));
@@ -1087,12 +1091,12 @@ where
                 channel: Channel { client, .. },
                 ..
             } => (client, policy),
-            PolicyStateKind::Executing { cancel } => {
+            PolicyStateKind::Executing { cancel, done } => {
                 // send_cancel is called in spawned mpc tokio task
                 cancel.notify_one();
                 // when this is notified, the error has been sent to output
-                // destination if available
-                cancel.notified().await;
+                // destination if available (or the computation had already finished)
+                done.notified().await;
                 let _ = ret.send(Ok(()));
                 return;
             }
